@@ -32,7 +32,7 @@ def cases(draw, tier):
     nz = draw(st.integers(order + 1, 16))
     cu = draw(st.booleans())
     deg = 3 if cu else draw(st.integers(1, 5))
-    ntheta = draw(st.integers(max(4, deg + 1), 12))
+    ntheta = draw(st.integers(max(3, deg), 12))         # periodic spaces admit cells == degree
     nr = draw(st.integers(2, 7))
     p0 = draw(st.integers(1, min(nr, 4)))
     coord = draw(st.integers(0, p0 - 1))
